@@ -58,6 +58,7 @@ def norm_t(t):
     t = re.sub(r'\bvolatile\b', '', t)
     t = re.sub(r'\s+', ' ', t).strip()
     t = re.sub(r'\s*([<>,*&])\s*', r'\1', t)
+    t = re.sub(r'(?<![\w.])(-?\d+)(?:[uU]?[lL]{0,2}|[lL]{1,2}[uU])(?![\w.])', r'\1', t)
     return t
 
 
@@ -201,10 +202,13 @@ class TU:
                 if nm or k != 'NamespaceDecl':
                     if not (k == 'NamespaceDecl' and cur.get('isInline')):
                         parts.append(nm)
-            cur = cur.get('_p')
+            pid = cur.get('parentDeclContextId')
+            if pid and pid in self.byid and k in REC_KINDS + FN_KINDS:
+                cur = self.byid[pid]      # semantic parent (explicit instantiations, out-of-line definitions)
+            else:
+                cur = cur.get('_p')
             if cur is not None and cur.get('kind') == 'TranslationUnitDecl':
                 break
-        # out-of-line definitions: use parentDeclContextId
         return '::'.join(reversed(parts))
 
     def semantic_qualname(self, n):
@@ -293,6 +297,7 @@ class Lower:
         self.struct_order = []
         self.typedefs = {}
         self.maythrow = set()
+        self.exc_codes = set()
         self.reset()
         self._register_records()
 
@@ -344,7 +349,15 @@ class Lower:
         r = self.rec_by_t.get(key)
         if r is not None:
             return r
-        return None
+        if not hasattr(self, '_rec_miss'):
+            self._rec_miss = {}
+        if key in self._rec_miss:
+            return self._rec_miss[key]
+        cands = [v for k, v in self.rec_by_t.items() if k.endswith('::' + key)]
+        ids = set(c['id'] for c in cands)
+        r = cands[0] if len(ids) == 1 else None
+        self._rec_miss[key] = r
+        return r
 
     def rec_alias_of(self, rec):
         ts = norm_t(self.tu.rec_typestr(rec))
@@ -434,7 +447,55 @@ class Lower:
         en = self.find_enum(t)
         if en is not None:
             return en
+        al = self.resolve_alias(t)
+        if al is not None:
+            return self.ctype(al)
         raise Unsupported('type: ' + tstr)
+
+    def resolve_alias(self, t):
+        """sugar that clang left in a type string: member typedef of the current record (or its bases),
+        or a namespace-scope alias"""
+        name = t.split('::')[-1]
+        if not re.fullmatch(r'\w+', name):
+            return None
+        fn = getattr(self, 'cur_fn', None)
+        recs = []
+        if fn is not None:
+            r = self.tu.rec_of_member.get(fn['id'])
+            if r is None and fn.get('parentDeclContextId') in self.tu.byid:
+                r = self.tu.byid[fn['parentDeclContextId']]
+            if r is not None and r.get('kind') in REC_KINDS:
+                recs.append(r)
+        seen = set()
+        while recs:
+            r = recs.pop(0)
+            if r['id'] in seen:
+                continue
+            seen.add(r['id'])
+            for c in r.get('inner', []):
+                if c.get('kind') in ('TypeAliasDecl', 'TypedefDecl') and c.get('name') == name:
+                    d = dq(c['type'])
+                    if d != t:
+                        return d
+            for b in r.get('bases', []):
+                br = self.find_record(dq(b['type']))
+                if br is not None:
+                    recs.append(br)
+        if not hasattr(self, '_ns_alias'):
+            self._ns_alias = {}
+            stack = [self.tu.root]
+            while stack:
+                n = stack.pop()
+                for c in n.get('inner', []) or []:
+                    k = c.get('kind')
+                    if k in ('NamespaceDecl', 'LinkageSpecDecl'):
+                        stack.append(c)
+                    elif k in ('TypeAliasDecl', 'TypedefDecl') and 'name' in c:
+                        self._ns_alias.setdefault(c['name'], dq(c['type']))
+        d = self._ns_alias.get(name)
+        if d is not None and d != t and norm_t(d) != norm_t(t):
+            return d
+        return None
 
     def find_enum(self, t):
         if not hasattr(self, '_enums'):
@@ -505,8 +566,11 @@ class Lower:
                 ns = [x for x in ns if x not in ('xtl', 'detail', 'std', '')]
                 if ns:
                     pre = '_'.join(san(x) for x in ns) + '__'
+            saved = getattr(self, 'cur_fn', None)
+            self.cur_fn = fn
             sig = '_'.join(self.abbr(dq(p['type'])) for p in self.params(fn))
             targs = self.fn_targs(fn)
+            self.cur_fn = saved
             nm = pre + base
             if targs:
                 nm += '__T_' + targs
@@ -544,35 +608,91 @@ class Lower:
                 return t[:i].strip()
         raise Unsupported('fn type ' + t)
 
-    def ret_ctype(self, fn):
+    def first_return(self, n):
+        stack = [n]
+        while stack:
+            x = stack.pop(0)
+            if x.get('kind') == 'ReturnStmt':
+                inner = [c for c in x.get('inner', []) if 'kind' in c]
+                if inner:
+                    return inner[0]
+            if x.get('kind') == 'LambdaExpr':
+                continue
+            stack = [c for c in x.get('inner', []) or [] if 'kind' in c] + stack
+        return None
+
+    def ret_cpp_type(self, fn):
+        """C++ return type string of an instantiated function (trailing, decltype and deduced forms resolved)"""
         if fn['kind'] in ('CXXConstructorDecl', 'CXXDestructorDecl'):
             return 'void'
+        key = fn['id']
+        if not hasattr(self, '_rett'):
+            self._rett = {}
+        if key in self._rett:
+            return self._rett[key]
+        t = dq(fn['type'])
         rt = self.ret_type_str(fn)
-        if rt == 'auto' or rt.startswith('auto '):
-            # trailing return type:  auto (args) -> T
-            t = dq(fn['type'])
-            if '->' in t:
-                rt = t.rsplit('->', 1)[1].strip()
+        if (rt == 'auto' or rt.startswith('auto ')) and '->' in t:
+            rt = t.rsplit('->', 1)[1].strip()
+        if 'decltype(' in rt or rt in ('auto', 'decltype(auto)', 'auto &&'):
+            d = self.tu.definition(fn) or fn
+            body = self.tu.body(d)
+            e = self.first_return(body) if body is not None else None
+            if e is None:
+                if rt == 'auto':
+                    rt = 'void'
+                else:
+                    raise Unsupported('cannot resolve return type ' + rt)
+            else:
+                et = dq(e['type'])
+                if rt != 'auto' and e.get('valueCategory') == 'lvalue':
+                    et += ' &'
+                rt = et
+        m0 = re.fullmatch(r'(?:typename )?(.*)::(\w+)( ?[&*]*)', strip_cv(rt))
+        if m0:
+            r0 = self.find_record(m0.group(1))
+            if r0 is not None:
+                for c in r0.get('inner', []):
+                    if c.get('kind') in ('TypeAliasDecl', 'TypedefDecl') and c.get('name') == m0.group(2):
+                        rt = dq(c['type']) + m0.group(3)
         try:
-            return self.ctype(rt)
+            self.ctype(rt)
         except Unsupported:
             rec = self.tu.rec_of_member.get(fn['id'])
+            ok = False
             if rec is not None:
                 m = re.fullmatch(r'(?:typename )?(.*)::(\w+)( ?[&*]*)', rt)
                 if m:
                     for c in rec.get('inner', []):
                         if c.get('kind') in ('TypeAliasDecl', 'TypedefDecl') and c.get('name') == m.group(2):
-                            return self.ctype(dq(c['type']) + m.group(3))
-            raise
+                            rt = dq(c['type']) + m.group(3)
+                            ok = True
+            if not ok:
+                d = self.tu.definition(fn) or fn
+                body = self.tu.body(d)
+                e = self.first_return(body) if body is not None else None
+                if e is None or self.is_ref(rt):
+                    raise
+                rt = dq(e['type'])
+                self.ctype(rt)
+        self._rett[key] = rt
+        return rt
+
+    def ret_ctype(self, fn):
+        saved = getattr(self, 'cur_fn', None)
+        self.cur_fn = fn
+        try:
+            return self.ctype(self.ret_cpp_type(fn))
+        finally:
+            self.cur_fn = saved
 
     def ret_is_ref(self, fn):
-        if fn['kind'] in ('CXXConstructorDecl', 'CXXDestructorDecl'):
-            return False
-        t = dq(fn['type'])
-        rt = self.ret_type_str(fn)
-        if (rt == 'auto' or rt.startswith('auto ')) and '->' in t:
-            rt = t.rsplit('->', 1)[1].strip()
-        return self.is_ref(rt)
+        saved = getattr(self, 'cur_fn', None)
+        self.cur_fn = fn
+        try:
+            return self.is_ref(self.ret_cpp_type(fn))
+        finally:
+            self.cur_fn = saved
 
     def is_method(self, fn):
         return fn.get('kind') in ('CXXMethodDecl', 'CXXConstructorDecl', 'CXXDestructorDecl', 'CXXConversionDecl') \
@@ -630,6 +750,14 @@ class Lower:
             self.maythrow = mt
 
     def proto(self, fn, nm=None):
+        saved = getattr(self, 'cur_fn', None)
+        self.cur_fn = fn
+        try:
+            return self._proto(fn, nm)
+        finally:
+            self.cur_fn = saved
+
+    def _proto(self, fn, nm=None):
         nm = nm or self.cname(fn)
         params = []
         if self.is_method(fn):
@@ -718,6 +846,11 @@ class Lower:
             if not inner:
                 return '/* default-init %s */;' % fld['name']
             e = inner[0]
+            if e.get('kind') == 'CXXDefaultInitExpr':
+                fi = [x for x in fd.get('inner', []) if 'kind' in x and ('valueCategory' in x or x['kind'] == 'InitListExpr')]
+                if not fi:
+                    raise Unsupported('in-class initialiser of %s not found' % fld['name'])
+                e = fi[0]
             if self.is_ref(ft):
                 return '%s = %s;' % (tgt, self.addr(e))
             return self.init_into(tgt, ft, e) + ';'
@@ -910,6 +1043,14 @@ class Lower:
         if k == 'GCCAsmStmt':
             raise Unsupported('asm')
         # expression statement
+        n0 = n
+        while n0.get('kind') in ('ExprWithCleanups', 'ParenExpr'):
+            n0 = n0['inner'][0]
+        if n0.get('kind') == 'ConditionalOperator' and dq(n0['type']) == 'void':
+            c, a, b = n0['inner']
+            cc = self.rv(c)
+            out = self.flush_pre(ind)
+            return '\n'.join(out + [I + 'if (%s)\n%s\n%selse\n%s' % (cc, self.block(a, ind), I, self.block(b, ind))])
         s = self.rv(n, discard=True)
         return '\n'.join(self.flush_pre(ind) + [I + s + ';'] + self.post_exc(ind))
 
@@ -958,7 +1099,7 @@ class Lower:
             out = [I + st + decl + ';']
             return out
         e0 = self.skip_wrappers(init[0])
-        if st and e0.get('kind') == 'InitListExpr':
+        if (st or re.search(r'\[\d+\]$', strip_cv(vt))) and e0.get('kind') == 'InitListExpr':
             # static const tables: emit a C initialiser
             return [I + '%s%s = %s;' % (st, decl, self.c_initializer(e0))]
         if e0.get('kind') in ('CXXConstructExpr', 'CXXTemporaryObjectExpr', 'InitListExpr') and \
@@ -977,7 +1118,7 @@ class Lower:
                 parts.append(self.c_initializer(it0))
             else:
                 parts.append(self.rv(it))
-        return '{' + ', '.join(parts) + '}'
+        return '{' + ', '.join(parts or ['0']) + '}'
 
     def is_trivial_copy(self, e):
         """CXXConstructExpr that is a trivial copy/move of a prvalue or lvalue"""
@@ -988,7 +1129,8 @@ class Lower:
             return False
         ctor = self.find_ctor(e)
         if ctor is None:
-            return self.std.is_value_type(dq(e['type']), self)
+            return self.std.is_value_type(dq(e['type']), self) and \
+                norm_t(dq(args[0]['type'])).rstrip('&') == norm_t(dq(e['type']))
         return bool(ctor.get('isImplicit') or ctor.get('explicitlyDefaulted') == 'default') and \
             self.is_copy_move_ctor(ctor, e)
 
@@ -1080,7 +1222,11 @@ class Lower:
         d = decl
         init = [c for c in d.get('inner', []) if 'kind' in c and ('valueCategory' in c or c['kind'] == 'InitListExpr')]
         q = self.tu.qualname(decl) if decl.get('_p') else decl.get('name')
-        nm = 'g_' + san(q or decl['name'])
+        par = decl.get('_p') or {}
+        if par.get('kind') in REC_KINDS:
+            nm = 'g_' + self.struct_for(par)[2:] + '_' + decl['name']
+        else:
+            nm = 'g_' + san((q + '_' if q else '') + decl['name'])
         vt = dq(decl['type'])
         if not init:
             raise Unsupported('global var without init ' + decl.get('name', ''))
@@ -1209,7 +1355,14 @@ class Lower:
             if ck == 'ArrayToPointerDecay':
                 if e.get('kind') == 'StringLiteral':
                     return self.rv(e)
-                return '(&%s[0])' % self.lv(e) if not self._is_ptr_model(e) else self.lv(e)
+                e1 = e
+                while e1.get('kind') in ('ParenExpr',) or (e1.get('kind') == 'ImplicitCastExpr' and e1.get('castKind') == 'NoOp'):
+                    e1 = e1['inner'][0]
+                if e1.get('kind') == 'DeclRefExpr' and e1['referencedDecl']['kind'] in ('ParmVarDecl', 'VarDecl'):
+                    d = self.tu.byid.get(e1['referencedDecl']['id'], e1['referencedDecl'])
+                    if re.search(r'\(&&?\)\s*\[', dq(d.get('type', {'qualType': ''}))):
+                        return d['name']      # reference to array is lowered to a pointer to its first element
+                return '(&%s[0])' % self.lv(e)
             if ck == 'FunctionToPointerDecay':
                 return self.lv(e)
             if ck in ('DerivedToBase', 'UncheckedDerivedToBase'):
@@ -1451,6 +1604,7 @@ class Lower:
             raise Unsupported('rethrow')
         et = norm_t(dq(inner[0]['type']))
         code = 'XV_EXC_' + san(et.replace('std::', ''))
+        self.exc_codes.add(code)
         self.pending_exc_check = True
         return '(xv_exc = %s)' % code
 
@@ -1662,6 +1816,8 @@ class Lower:
         for inc in prelude_includes:
             out.append('#include "%s"' % inc)
         out.append('')
+        for i, c in enumerate(sorted(self.exc_codes)):
+            out.append('#ifndef %s\n#define %s %d\n#endif' % (c, c, 100 + i))
         for s in self.struct_order:
             out.append(self.structs[s])
             out.append('')
